@@ -26,6 +26,15 @@ impl Write for ScriptedWriter {
         let idx = r.n;
         r.n += 1;
         match r.script.get(idx).copied().flatten() {
+            Some(kind) if kind >= 100 => {
+                // short write: accept a strict prefix (possibly nothing)
+                let n = ((kind - 100) as usize).min(buf.len().saturating_sub(1));
+                r.attempts.push(Attempt {
+                    bytes: buf[..n].to_vec(),
+                    err: None,
+                });
+                Ok(n)
+            }
             Some(kind) => {
                 let e = util::token_error(kind, idx as u64);
                 r.attempts.push(Attempt {
